@@ -184,8 +184,13 @@ class Interp(object):
     def __init__(self, fn, entry_cons=(), candidates=(), inline_props=None,
                  pure_self_methods=(), pure_calls=(), integer=True,
                  nonneg=(), assume_asserts=True, ghost_params=True,
-                 call_effects=None, max_rounds=12, consts=None):
+                 call_effects=None, max_rounds=12, consts=None,
+                 hypotheses=()):
         self.fn = fn
+        # [(condition text, truth value)]: analyse only the executions on
+        # which these conditions have these values (trace partition chosen by
+        # the rule); contradicting branch edges are unreachable
+        self.hypotheses = dict(hypotheses)
         self.flow = CurFlow(fn, inline_props=inline_props,
                             pure_self_methods=pure_self_methods,
                             pure_calls=pure_calls, consts=consts)
@@ -299,6 +304,10 @@ class Interp(object):
         if n.kind == "assume":
             if n.label == "assert" and not self.assume_asserts:
                 return cons
+            txt = unparse(n.ast)
+            if txt in self.hypotheses and \
+                    self.hypotheses[txt] != n.polarity:
+                return None
             new = flow.cond_constraints(n.ast, n.polarity, n)
             if new:
                 cons = cons + new
